@@ -2,6 +2,7 @@
 """Confirm a seeded breaking change produced by an independent sub-agent and record which checks catch it.
 
 usage: tools/seeded.py confirm <ID> [--checks C01,C09,...] [--wt <worktree>] [--tag <record name>]     (worktree /tmp/wt-<ID> with seeded_out/{patch.diff,demo.py,meta.json})
+       tools/seeded.py reconfirm <record> [<record> ...] [--checks ...]     (stored records seeded/<record>/ against /repo HEAD, fresh scratch worktree each)
 
 Steps (all in the scratch worktree, never in /repo):
   1. the worktree diff is reset to exactly seeded_out/patch.diff
@@ -91,7 +92,38 @@ def confirm(sid, checks, tag=None, wt=None):
     return rec
 
 
+def reconfirm(name, checks):
+    """Re-run the confirmation of a stored record against /repo's current HEAD in a fresh scratch worktree (removed afterwards)."""
+    src = os.path.join(VERIF, "seeded", name)
+    wt = f"/tmp/wt-re-{name}"
+    sh(f"git -C /repo worktree remove --force {wt}")
+    r = sh(f"git -C /repo worktree add -q --detach {wt} HEAD")
+    if r.returncode:
+        return {"id": name, "error": r.stderr[-300:]}
+    try:
+        out = os.path.join(wt, "seeded_out")
+        os.makedirs(out)
+        for f in ("patch.diff", "demo.py", "meta.json"):
+            shutil.copy(os.path.join(src, f), os.path.join(out, f))
+        return confirm(name.split("-")[0], checks, tag=name, wt=wt)
+    finally:
+        sh(f"git -C /repo worktree remove --force {wt}")
+        sh("git -C /repo worktree prune")
+
+
 def main(argv):
+    if len(argv) >= 2 and argv[0] == "reconfirm":
+        checks = argv[argv.index("--checks") + 1].split(",") if "--checks" in argv else ALL
+        bad = 0
+        for name in argv[1:]:
+            if name.startswith("--") or (argv[argv.index(name) - 1] == "--checks"):
+                continue
+            rec = reconfirm(name, checks)
+            ok = rec.get("confirmed") and not rec.get("harness_errors")
+            bad += 0 if ok else 1
+            print(name, "confirmed" if rec.get("confirmed") else "NOT-CONFIRMED", "caught_by=" + ",".join(c["check"] for c in rec.get("caught_by", [])),
+                  "harness_errors=%d" % len(rec.get("harness_errors", [])), rec.get("error", ""), flush=True)
+        return 1 if bad else 0
     if len(argv) < 2 or argv[0] != "confirm":
         print(__doc__)
         return 2
